@@ -179,6 +179,26 @@ func c16Lifetimes(c *Ctx, fn *ssa.Function, fields []string) {
 					ok = okT && tf == f && isClockExpr(res.Args[1]) && len(nows) > 0 && sameValue(res.Args[1], nows[0])
 				}
 			}
+			if o == nil && res.Op == an.OpCall && res.Fn == nil && res.Name == "max" && len(res.Args) == 2 {
+				// max(deadline.Sub(now), 0): both cases at once
+				rem, zero := res.Args[0], res.Args[1]
+				if _, isC := rem.ConstInt(); isC {
+					rem, zero = zero, rem
+				}
+				if k, isC := zero.ConstInt(); isC && k == 0 && rem.Op == an.OpCall && rem.Fn != nil && rem.Fn.String() == "(time.Time).Sub" && len(rem.Args) == 2 {
+					tf, okT := deadlineOf(rem.Args[0])
+					if okT && tf == f && isClockExpr(rem.Args[1]) {
+						state = "max"
+						ok = true
+						nows = append(nows, rem.Args[1])
+						for _, n := range nows {
+							if !sameValue(n, nows[0]) {
+								oneClock = false
+							}
+						}
+					}
+				}
+			}
 			key += "@" + state
 			c.R.Check(ok && oneClock && nCalls == 1, "R-C16-1", key, name, c.pos(p.Ret.Pos()),
 				fmt.Sprintf("result[%d] = %s with %s (clock reads on path: %d, single now: %v)", i, res, state, nCalls, oneClock),
